@@ -270,6 +270,7 @@ class Interp:
             self.acc = []
             self.events = []
             self.heap = dict(self.heap0) if self.heap0 is not None else None
+            self.zeroed = []          # (base, lo, hi) regions cleared by memset(p, 0, n): loads that miss the heap read 0
             self._objs = 0
             if getattr(self, "on_path_start", None) is not None:
                 self.on_path_start()        # hooks with per-path state (allocation counters, file position) reset it
@@ -934,6 +935,10 @@ class Interp:
                 self.access(p, size, "r", lnode)
                 if self.heap is not None and isinstance(p.off, int) and (p.base, p.off) in self.heap:
                     return self.heap[(p.base, p.off)]
+                if self.heap is not None and isinstance(p.off, int):
+                    for zb, lo, hi in getattr(self, "zeroed", ()):
+                        if zb == p.base and lo <= p.off and p.off + (size or 1) <= hi:
+                            return 0
                 mem = getattr(self, "memory", None)
                 if mem is not None and isinstance(p.off, int):
                     v2 = mem(p.base, p.off, size)
@@ -1091,9 +1096,37 @@ class Interp:
         p, size = self.addr(lnode, env, fn, depth)
         if p is not None and isinstance(p.off, int) and (p.base, p.off) in self.heap:
             return self.heap[(p.base, p.off)]
+        if p is not None and isinstance(p.off, int):
+            for zb, lo, hi in getattr(self, "zeroed", ()):
+                if zb == p.base and lo <= p.off and p.off + (size or 1) <= hi:
+                    return 0
         mem = getattr(self, "memory", None)
         if mem is not None and p is not None and isinstance(p.off, int):
             v2 = mem(p.base, p.off, size)
+            if v2 is not None:
+                return v2
+        return U
+
+    def byte_at(self, base, off):
+        """The byte stored at (base, off) when it is known: a byte-granular heap entry, a cleared region, the
+        memory oracle, or a byte of a wider scalar stored at a lower offset (little-endian)."""
+        v = self.heap.get((base, off)) if self.heap is not None else None
+        if isinstance(v, int):
+            return v & 0xFF
+        if v is not None:
+            return v
+        for back in range(1, 8):
+            w = self.heap.get((base, off - back)) if self.heap is not None else None
+            if isinstance(w, int):
+                return (w >> (8 * back)) & 0xFF
+            if w is not None:
+                break
+        for zb, lo, hi in getattr(self, "zeroed", ()):
+            if zb == base and lo <= off < hi:
+                return 0
+        mem = getattr(self, "memory", None)
+        if mem is not None:
+            v2 = mem(base, off, 1)
             if v2 is not None:
                 return v2
         return U
@@ -1224,13 +1257,52 @@ class Interp:
                 else:
                     for i in range(n):
                         self.heap[(args[0].base, args[0].off + i)] = ((v >> (8 * i)) & 0xFF) if isinstance(v, int) else U
+            elif self.heap is not None and isinstance(args[0], Ptr) and isinstance(args[1], Ptr) and isinstance(n, int) \
+                    and isinstance(args[0].off, int) and isinstance(args[1].off, int) and 0 < n <= 65536:
+                # tracked memory to tracked memory: whatever is stored at each source offset moves to the same
+                # offset of the destination (scalars stay whole); bytes nobody stored are read through the cleared
+                # regions / the memory oracle
+                (db, do), (sb, so) = (args[0].base, args[0].off), (args[1].base, args[1].off)
+                vals = [self.heap.get((sb, so + i)) for i in range(n)]
+                stored = any(v is not None for v in vals)
+                for i in range(n):
+                    v = vals[i]
+                    if v is None and not stored:
+                        v = self.byte_at(sb, so + i)
+                        v = None if v is U else v
+                    if v is None:
+                        self.heap.pop((db, do + i), None)
+                    else:
+                        self.heap[(db, do + i)] = v
+                self.zeroed = [z for z in getattr(self, "zeroed", []) if not (z[0] == db and z[1] < do + n and do < z[2])] + \
+                    [(db, do + (z[1] - so if z[1] > so else 0), do + min(n, z[2] - so)) for z in getattr(self, "zeroed", [])
+                     if z[0] == sb and z[1] < so + n and so < z[2]]
             return args[0]
         if name in ("memset", "__builtin_memset", "__memset_chk"):
             self.access(args[0], args[2] if len(args) > 2 else U, "w", e)
+            if self.heap is not None and isinstance(args[0], Ptr) and isinstance(args[0].off, int) and len(args) > 2 \
+                    and isinstance(args[2], int) and 0 < args[2] <= (1 << 20):
+                lo, hi = args[0].off, args[0].off + args[2]
+                for k_ in [k_ for k_ in self.heap if k_[0] == args[0].base and isinstance(k_[1], int) and lo <= k_[1] < hi]:
+                    del self.heap[k_]
+                if args[1] == 0:
+                    self.zeroed.append((args[0].base, lo, hi))
+                else:
+                    self.zeroed = [z for z in getattr(self, "zeroed", []) if not (z[0] == args[0].base and z[1] < hi and lo < z[2])]
             return args[0]
         if name in ("memcmp",):
             self.access(args[0], args[2], "r", e)
             self.access(args[1], args[2], "r", e)
+            if self.heap is not None and isinstance(args[0], Ptr) and isinstance(args[1], Ptr) and isinstance(args[2], int) \
+                    and isinstance(args[0].off, int) and isinstance(args[1].off, int) and 0 <= args[2] <= 4096:
+                # both operands are tracked bytes: the comparison has one outcome
+                for i in range(args[2]):
+                    x, y = self.byte_at(args[0].base, args[0].off + i), self.byte_at(args[1].base, args[1].off + i)
+                    if not isinstance(x, int) or not isinstance(y, int):
+                        return U
+                    if (x & 0xFF) != (y & 0xFF):
+                        return -1 if (x & 0xFF) < (y & 0xFF) else 1
+                return 0
             return U
         if name in VEC:
             for kind, ai, width in VEC[name]:
